@@ -100,8 +100,16 @@ impl<K, V> OrderedQueue<K, V> {
         self.map.remove(&self.next)
     }
 
-    pub fn progress_to(&mut self, next: K) {
+    /// Moves the next expected key forward. Buffered entries below it can never become
+    /// "next" any more; they are removed and handed back so that the caller can answer them.
+    pub fn progress_to(&mut self, next: K) -> Vec<(K, V)>
+    where
+        K: Ord,
+    {
+        let kept = self.map.split_off(&next);
+        let skipped = std::mem::replace(&mut self.map, kept);
         self.next = next;
+        skipped.into_iter().collect()
     }
 
     pub fn next(&self) -> &K {
